@@ -22,7 +22,8 @@ var classesC2S = []string{"UpstreamChunk", "Ping", "DownstreamChunkAck"}
 var classesS2C = []string{"UpstreamChunkAck", "Pong", "DownstreamChunk", "DownstreamChunkAckComplete"}
 
 func baseScenario(r *rand.Rand) reconlib.Scenario {
-	s := reconlib.Scenario{PingMs: []int{200, 500}[r.Intn(2)], Storage: "payload", WritesB: 3, DuringWrites: 2, AckHoldMod: []int{0, 2, 3}[r.Intn(3)]}
+	s := reconlib.Scenario{PingMs: []int{200, 500, 200, 500, 30000}[r.Intn(5)], Storage: "payload", WritesB: 3, DuringWrites: 2, AckHoldMod: []int{0, 2, 3}[r.Intn(3)]}
+	// (30 s keepalive: unless the transport reports the failure itself, a request of the application notices the outage first)
 	nu := r.Intn(4)
 	nd := r.Intn(3)
 	if nu+nd == 0 {
@@ -96,6 +97,10 @@ func genFault(r *rand.Rand, s reconlib.Scenario) reconlib.Fault {
 		}
 		f.NextLink = []memnet.Trigger{{Dir: memnet.S2C, Class: cl, Ordinal: 1, After: true, Mode: []memnet.Mode{memnet.Sever, memnet.REOF}[r.Intn(2)]}}
 	}
+	if len(s.Downs) > 0 && r.Intn(5) == 0 {
+		// the broker has not yet noticed that the downstreams' old connection is gone: "conflict, ask again"
+		f.DownConflicts = 1 + 2*r.Intn(2)
+	}
 	return f
 }
 
@@ -116,7 +121,7 @@ func Judge(o *reconlib.Outcome) vrun.Result {
 		return r
 	}
 	if !o.Recovered {
-		return vrun.Violation("the connection did not re-establish itself within 120 virtual seconds after the transport failed", "no-recovery:"+faultKey(s), map[string]any{"note": o.RecoverNote, "dials": o.Dials, "links": o.Links})
+		return vrun.Violation("the connection did not re-establish itself within 120 virtual seconds (plus six keepalive periods) after the transport failed", "no-recovery:"+faultKey(s), map[string]any{"note": o.RecoverNote, "dials": o.Dials, "links": o.Links})
 	}
 	// fresh token on every connect
 	prev := 0
@@ -215,7 +220,7 @@ func Judge(o *reconlib.Outcome) vrun.Result {
 				map[string]any{"downstream": i, "qos": d.Spec.QoS, "probe": d.ProbeErr, "resumed_events": d.Resumed, "resume_requests_on_links": d.State.Resumes})
 		}
 		if !mayBeClosed {
-			return vrun.Violation("a downstream was closed although the broker accepted its resume", "downstream-closed-despite-recovery:"+faultKey(s),
+			return vrun.Violation("a downstream was closed although the broker did not refuse its resume and the exchange was not cut", "downstream-closed-despite-recovery:"+faultKey(s),
 				map[string]any{"downstream": i, "id": d.ID.String()[:8], "qos": d.Spec.QoS, "closed_events": d.ClosedErrs, "resume_requests_on_links": d.State.Resumes, "read_stream_closed": d.ReadStreamClosed, "resumed_events": d.Resumed, "trace": lifecycleTrace(o)})
 		}
 	}
@@ -242,7 +247,7 @@ func Judge(o *reconlib.Outcome) vrun.Result {
 	}
 	sig := fmt.Sprintf("u%d d%d %v | %s", len(s.Ups), len(s.Downs), s.OutageCalls, faultKey(s))
 	for _, f := range s.Faults {
-		sig += fmt.Sprintf("|#%d/%v/d%d/e%d/c%d", f.Trigger.Ordinal, f.Trigger.After, f.DialDelayMs, f.DialErrors, f.ResumeConflicts)
+		sig += fmt.Sprintf("|#%d/%v/d%d/e%d/c%d", f.Trigger.Ordinal, f.Trigger.After, f.DialDelayMs, f.DialErrors, f.ResumeConflicts+10*f.DownConflicts)
 	}
 	r := vrun.Hold(sig, true)
 	r.Stat("faults_fired", int64(o.FaultsFired))
@@ -396,8 +401,8 @@ func runCase(c *vrun.Case, s reconlib.Scenario, judge func(*reconlib.Outcome) vr
 func TestC05Reconnect(t *testing.T) {
 	e := vrun.LoadEnv()
 	meta := vrun.Meta{Property: "C05", Workload: "TestC05Reconnect", Total: e.Pick(300, 40000),
-		Rule: "virtual time: base scenario (0-3 upstreams and 0-2 downstreams of all QoS with continuous traffic, acks partly withheld, a drawn subset of {OpenUpstream, OpenDownstream, SendMetadata, SendCall, SendCallAndWaitReplayCall} issued the moment the link dies, writes continuing during the outage) x 1-3 transport failures, each at a message boundary (direction, message class, ordinal, before/after) in one of 4 failure modes, with redial instant / 1 ms / 3 s / after 1-3 dial errors, resume conflicts 0/1/3, optionally a second failure inside the connect handshake of the retry, a resume exchange that is cut, a resume the broker refuses, or a link that dies the moment a stream has resumed on it; in a quarter of the cases the application's logger blocks 0.3-10 s at one step of the reconnect / resume procedure, in a fifth its disconnected or reconnected handler takes 0.3-10 s. Oracle: recovery within 120 virtual seconds; strictly newer token on every connect; resume requests under the original stream id / alias; every stream either passes a probe after recovery (write+flush+ack, or a pushed chunk read) or was reported closed with an error - and only the stream whose resume was refused or cut may be; notifications pair up once per outage; outage calls succeed (or end with their own context), never with a connection error. non-trivial = at least one fault fired; distinct = (stream mix, outage calls, fault keys)",
-		Assumptions: []string{"bounded restatement of 'keeps working': within 120 virtual seconds after the last fault, with a cooperative broker",
+		Rule: "virtual time: base scenario (0-3 upstreams and 0-2 downstreams of all QoS with continuous traffic, acks partly withheld, a drawn subset of {OpenUpstream, OpenDownstream, SendMetadata, SendCall, SendCallAndWaitReplayCall} issued the moment the link dies, writes continuing during the outage) x 1-3 transport failures, each at a message boundary (direction, message class, ordinal, before/after) in one of 4 failure modes, with redial instant / 1 ms / 3 s / after 1-3 dial errors, resume conflicts 0/1/3 (upstreams and, separately, downstreams), optionally a second failure inside the connect handshake of the retry, a resume exchange that is cut, a resume the broker refuses, or a link that dies the moment a stream has resumed on it; in a quarter of the cases the application's logger blocks 0.3-10 s at one step of the reconnect / resume procedure, in a fifth its disconnected or reconnected handler takes 0.3-10 s. Oracle: recovery within 120 virtual seconds (plus six keepalive periods); strictly newer token on every connect; resume requests under the original stream id / alias; every stream either passes a probe after recovery (write+flush+ack, or a pushed chunk read) or was reported closed with an error - and only the stream whose resume was refused or cut may be; notifications pair up once per outage; outage calls succeed (or end with their own context), never with a connection error. non-trivial = at least one fault fired; distinct = (stream mix, outage calls, fault keys)",
+		Assumptions: []string{"bounded restatement of 'keeps working': within 120 virtual seconds (plus six keepalive periods) after the last fault, with a cooperative broker",
 			"'once per outage' is counted on the client's own notifications (disconnected == reconnected); a stream's resumed notifications must equal the number of resume exchanges it completed on the wire (an outage that hits before a stream has resumed merges with the previous one for that stream)",
 			"'reported closed with an error' is read as: a closed notification carrying an error OR the stream's own calls failing with the stream-closed error (the weaker reading; the stream is not SILENTLY detached then)"}}
 	vrun.Loop(t, meta, 0, func(c *vrun.Case) vrun.Result {
@@ -418,6 +423,15 @@ func TestC05Reconnect(t *testing.T) {
 		}
 		if c.Rng.Intn(4) == 0 {
 			s.CloseFails = "broken" // closing a transport whose link is already broken reports an error
+		}
+		if c.Rng.Intn(3) == 0 {
+			s.AliasFromZero = true // stream alias 0 is in use on every connection
+		}
+		for _, f := range s.Faults {
+			if f.RefuseResumeOf > 0 && len(s.Ups) >= 2 {
+				// directed: a refused response carries alias 0 - the alias another stream legitimately holds
+				s.AliasFromZero = true
+			}
 		}
 		return runCase(c, s, Judge)
 	})
